@@ -89,35 +89,6 @@ theorem testBit_keys_mem (p : Params) (fnv : Bytes → Nat) (keys : List Bytes) 
 
 /-! ### no false negatives -/
 
-theorem bloomBytes_eq (p : Params) (fnv : Bytes → Nat) (keys : List Bytes) :
-    bloomBytes p fnv keys =
-      le 8 p.bloomBits ++ (le 8 p.bloomK ++ (le 8 p.bloomN ++ (le 8 keys.length ++
-        (keys.foldl (fun a k => (bloomPositions p fnv k).foldl setBit a)
-          (Array.replicate ((p.bloomBits + 7) / 8) (0 : UInt8))).toList))) := by
-  simp [bloomBytes]
-
-theorem filterOf_bloomBytes (p : Params) (hp : PWF p) (fnv : Bytes → Nat) (keys : List Bytes) (off : Nat) :
-    filterOf off (bloomBytes p fnv keys) =
-      { blockOff := off, bits := p.bloomBits, k := p.bloomK,
-        data := (keys.foldl (fun a k => (bloomPositions p fnv k).foldl setBit a)
-          (Array.replicate ((p.bloomBits + 7) / 8) (0 : UInt8))).toList } := by
-  obtain ⟨_, _, _, _, _, _, hb, hk, _, _⟩ := hp
-  rw [bloomBytes_eq]
-  generalize (keys.foldl (fun a k => (bloomPositions p fnv k).foldl setBit a)
-          (Array.replicate ((p.bloomBits + 7) / 8) (0 : UInt8))).toList = bl
-  have s0 : slice (le 8 p.bloomBits ++ (le 8 p.bloomK ++ (le 8 p.bloomN ++ (le 8 keys.length ++ bl)))) 0 8 =
-      le 8 p.bloomBits := slice_le_zero _ _ _
-  have s8 : slice (le 8 p.bloomBits ++ (le 8 p.bloomK ++ (le 8 p.bloomN ++ (le 8 keys.length ++ bl)))) 8 8 =
-      le 8 p.bloomK := by
-    rw [slice_le_skip _ _ _ _ _ (Nat.le_refl _)]; exact slice_le_zero _ _ _
-  have d32 : (le 8 p.bloomBits ++ (le 8 p.bloomK ++ (le 8 p.bloomN ++ (le 8 keys.length ++ bl)))).drop 32 = bl := by
-    have : le 8 p.bloomBits ++ (le 8 p.bloomK ++ (le 8 p.bloomN ++ (le 8 keys.length ++ bl))) =
-        (le 8 p.bloomBits ++ le 8 p.bloomK ++ le 8 p.bloomN ++ le 8 keys.length) ++ bl := by simp
-    rw [this]; exact List.drop_left' (by simp)
-  have u0 : unle (le 8 p.bloomBits) = p.bloomBits := unle_le 8 _ (by omega)
-  have u8 : unle (le 8 p.bloomK) = p.bloomK := unle_le 8 _ (by omega)
-  simp only [filterOf, s0, s8, d32, u0, u8]
-
 theorem filterContains_member (p : Params) (hp : PWF p) (fnv : Bytes → Nat) (keys : List Bytes) (off : Nat)
     (key : Bytes) (hk : key ∈ keys) :
     filterContains fnv (filterOf off (bloomBytes p fnv keys)) key = true := by
